@@ -14,9 +14,9 @@
 
    What is merged: the handle's request queue, the client's Buffered and the transport form one
    FIFO per direction (a composition of FIFOs); on the way back the client forwards
-   AddChannelCapacity into the `capacity_added` mpsc which `poll_send_ready` drains completely
-   before it looks at `capacity`, so the step "the sender's client handles AddChannelCapacity(n)"
-   adds n to the sender's capacity at once (the field is private and only read after the drain).
+   AddChannelCapacity into the `capacity_added` mpsc ([sd_added]), which BOTH `poll_send_ready` and
+   `poll_receiver_closed` drain completely into `capacity` ([absorb]) before they look at anything
+   else: an announcement consumed by either poll must end up in the sender's capacity.
    Items are opaque ids.  Arithmetic is that of a debug build (overflow checks and debug_assert!
    on, as the harness profile): every such site is a [f_panic] site.  The two owners [cS], [cR]
    are parameters: they may be the same connection (both ends on one client). *)
@@ -46,7 +46,8 @@ Inductive close_st := KNone | KPending | KDone (r : res3).
 
 Record world := {
   (* `Sender` *)
-  sd_cap : N;             (* Sender.capacity (+ what sits in capacity_added) *)
+  sd_cap : N;             (* Sender.capacity *)
+  sd_added : list N;      (* the `capacity_added` mpsc: announcements not yet polled *)
   sd_open : bool;         (* RawChannel state is Open *)
   sd_res : close_st;
   sd_sent : list N;       (* ghost: items accepted by start_send, in order *)
@@ -73,13 +74,15 @@ Record world := {
   f_unexp : bool }.       (* a client got a message it answers with UnexpectedMessageReceived *)
 
 #[export] Instance eta_world : Settable _ :=
-  settable! Build_world <sd_cap; sd_open; sd_res; sd_sent; sd_cl; rv_max; rv_cur; rv_open; rv_res;
+  settable! Build_world <sd_cap; sd_added; sd_open; sd_res; sd_sent; sd_cl; rv_max; rv_cur; rv_open; rv_res;
                          rv_queue; rv_got; rv_cl; q_sb; q_rb; q_bs; q_br; br_ch; f_cut; f_ovf;
                          f_panic; f_unexp>.
 
 (* the steps of a schedule *)
 Inductive act :=
 | ASend (v : N)   (* sender application: send_item(v) = poll_send_ready, then start_send *)
+| APollReady      (* sender application: poll_send_ready alone *)
+| APollClosed     (* sender application: poll_receiver_closed (the usual select! companion of send) *)
 | ARecv           (* receiver application: poll_next_serialized *)
 | ACloseS         (* sender application: poll_close / drop *)
 | ACloseR         (* receiver application: poll_close / drop *)
@@ -97,20 +100,44 @@ Definition SITE_RECV_ADD : N := 54.      (* self.cur_capacity += diff *)
 Definition SITE_RECV_POST : N := 55.     (* the two debug_assert!s on exit *)
 Definition SITE_SEND_PRE : N := 56.      (* start_send_serialized: debug_assert!(self.capacity > 0) *)
 
-Definition panic (w : world) (site : N) : world :=
-  match f_panic w with Some _ => w | None => w <| f_panic := Some site |> end.
-
 (* ---------------------------------------------------------------- observations *)
 Inductive ready := RdOk | RdPending | RdErr.
 
-(* Sender::poll_send_ready: drain capacity_added; its end (the client dropped the mpsc sender, or
-   poll_close closed the receiving half) is Err(InvalidChannel) whatever the capacity *)
-Definition send_ready (w : world) : ready :=
-  if negb (sd_open w) then RdErr else
-  match sd_cl w with
-  | CEst => if 0 <? sd_cap w then RdOk else RdPending
-  | _ => RdErr
+Definition panic (w : world) (site : N) : world :=
+  match f_panic w with Some _ => w | None => w <| f_panic := Some site |> end.
+
+Fixpoint added_sum (l : list N) : N := match l with [] => 0 | n :: l => n + added_sum l end.
+
+(* `self.capacity += added_capacity` for every queued announcement, in order (u32, checked) *)
+Fixpoint drain_added (l : list N) (cap : N) : option N :=
+  match l with
+  | [] => Some cap
+  | n :: l => if cap + n <=? u32_max then drain_added l (cap + n) else None
   end.
+
+(* the loop shared by Sender::poll_send_ready and Sender::poll_receiver_closed: every
+   Poll::Ready(Some(added_capacity)) of capacity_added goes into self.capacity *)
+Definition absorb (w : world) : world :=
+  match drain_added (sd_added w) (sd_cap w) with
+  | Some c => w <| sd_cap := c |> <| sd_added := [] |>
+  | None => panic w SITE_CAP_ADD
+  end.
+
+(* has the capacity_added stream ended (Poll::Ready(None) once it is empty)?  The client dropped
+   the mpsc sender, or poll_close closed the receiving half *)
+Definition added_ended (w : world) : bool :=
+  negb (sd_open w) || match sd_cl w with CEst => false | _ => true end.
+
+(* what poll_send_ready answers once the stream is drained: its end is Err(InvalidChannel) whatever
+   the capacity *)
+Definition ready_of (w : world) : ready :=
+  if added_ended w then RdErr else if 0 <? sd_cap w then RdOk else RdPending.
+
+(* Sender::poll_send_ready as an observation of the state before the poll *)
+Definition send_ready (w : world) : ready := ready_of (absorb w).
+
+(* Sender::poll_receiver_closed: true = Poll::Ready(()) *)
+Definition receiver_closed (w : world) : bool := added_ended w.
 
 Inductive recv_obs := GotItem (v : N) | GotEnd | GotPending.
 
@@ -126,7 +153,7 @@ Section Owners.
 Variable cS cR : conn.     (* the connections that own the sender / the receiver *)
 
 Definition winit (cap : N) : world :=
-  {| sd_cap := cap; sd_open := true; sd_res := KNone; sd_sent := []; sd_cl := CEst;
+  {| sd_cap := cap; sd_added := []; sd_open := true; sd_res := KNone; sd_sent := []; sd_cl := CEst;
      rv_max := cap; rv_cur := cap; rv_open := true; rv_res := KNone; rv_queue := []; rv_got := [];
      rv_cl := CEst;
      q_sb := []; q_rb := []; q_bs := []; q_br := [];
@@ -232,10 +259,7 @@ Definition client_s (w : world) : world :=
           match sd_cl w1 with
           | CEst =>
               (* unbounded_send fails silently once poll_close closed the receiving half *)
-              if sd_open w1 then
-                if sd_cap w1 + n <=? u32_max then w1 <| sd_cap ::= fun c => c + n |>
-                else panic w1 SITE_CAP_ADD
-              else w1
+              if sd_open w1 then w1 <| sd_added ::= fun l => l ++ [n] |> else w1
           | _ => unexpected w1
           end
       | BSPeerClosed =>                  (* msg_channel_end_closed, end = Receiver *)
@@ -280,7 +304,8 @@ Definition client_r (w : world) : world :=
 (* ---------------------------------------------------------------- the applications *)
 (* Sender::send_item: send_ready().await, then start_send_serialized *)
 Definition app_send (w : world) (v : N) : world :=
-  match send_ready w with
+  let w := absorb w in
+  match ready_of w with
   | RdOk =>
       if sd_cap w =? 0 then panic w SITE_SEND_PRE else
       w <| q_sb ::= fun q => q ++ [SItem v] |> <| sd_cap ::= fun c => c - 1 |>
@@ -323,6 +348,8 @@ Definition app_close_r (w : world) : world :=
 Definition wstep (w : world) (a : act) : world :=
   match a with
   | ASend v => app_send w v
+  | APollReady => absorb w
+  | APollClosed => absorb w
   | ARecv => app_recv w
   | ACloseS => app_close_s w
   | ACloseR => app_close_r w
@@ -363,4 +390,4 @@ Definition b_rcap (w : world) : option N := rcap_of (br_ch w).
 
 (* nothing in flight *)
 Definition quiet (w : world) : Prop :=
-  q_sb w = [] /\ q_rb w = [] /\ q_bs w = [] /\ q_br w = [] /\ rv_queue w = [].
+  q_sb w = [] /\ q_rb w = [] /\ q_bs w = [] /\ q_br w = [] /\ rv_queue w = [] /\ sd_added w = [].
